@@ -1073,6 +1073,9 @@ class Frame:
                     row = self._sub(base, first, env, node)
                     if isinstance(row, Vec):
                         return row.items[k]
+                    if isinstance(row, PW):
+                        return mk_pw([(g_, r_.items[k]) for g_, r_ in row.cases if isinstance(r_, Vec)]) \
+                            if all(isinstance(r_, Vec) for _g, r_ in row.cases) else self._sub_value(row, Rat.const(k))
             if arr:
                 if ci is not None:
                     return Vec([self._at(c, Rat.const(ci)) for c in base.items], "point")
